@@ -1112,6 +1112,7 @@ sexp sexp_complex_expt (sexp ctx, sexp a, sexp b) {
   res = sexp_to_complex(ctx, a);
   res = sexp_complex_log(ctx, res);
   res = sexp_mul(ctx, b, res);
+  res = sexp_to_complex(ctx, res);      /* the product may have been normalized to a real */
   res = sexp_complex_exp(ctx, res);
   sexp_gc_release1(ctx);
   return res;
@@ -1198,18 +1199,19 @@ sexp sexp_complex_acos (sexp ctx, sexp z) {
 sexp sexp_complex_atan (sexp ctx, sexp z) {
   sexp_gc_var3(res, tmp1, tmp2);
   sexp_gc_preserve3(ctx, res, tmp1, tmp2);
+  /* the generic operations: intermediate results may be normalized to reals */
   tmp1 = sexp_make_complex(ctx, SEXP_ZERO, SEXP_ONE);
-  tmp1 = sexp_complex_mul(ctx, z, tmp1);
-  res = sexp_make_complex(ctx, SEXP_ONE, SEXP_ZERO);
-  res = sexp_complex_sub(ctx, res, tmp1);
+  tmp1 = sexp_mul(ctx, z, tmp1);
+  res = sexp_sub(ctx, SEXP_ONE, tmp1);
+  res = sexp_to_complex(ctx, res);
   res = sexp_complex_log(ctx, res);
-  tmp2 = sexp_make_complex(ctx, SEXP_ONE, SEXP_ZERO);
-  tmp2 = sexp_complex_add(ctx, tmp2, tmp1);
+  tmp2 = sexp_add(ctx, SEXP_ONE, tmp1);
+  tmp2 = sexp_to_complex(ctx, tmp2);
   tmp2 = sexp_complex_log(ctx, tmp2);
-  res = sexp_complex_sub(ctx, res, tmp2);
+  res = sexp_sub(ctx, res, tmp2);
   tmp1 = sexp_make_complex(ctx, SEXP_ZERO, SEXP_ONE);
   sexp_complex_imag(tmp1) = sexp_make_flonum(ctx, 0.5);
-  res = sexp_complex_mul(ctx, res, tmp1);
+  res = sexp_mul(ctx, res, tmp1);
   sexp_gc_release3(ctx);
   return res;
 }
@@ -1478,7 +1480,7 @@ sexp sexp_sub (sexp ctx, sexp a, sexp b) {
 #if SEXP_USE_RATIOS
   case SEXP_NUM_RAT_CPX:
     a = tmp1 = sexp_make_flonum(ctx, sexp_ratio_to_double(ctx, a));
-    goto complex_sub;
+    goto real_minus_complex;
   case SEXP_NUM_CPX_RAT:
     b = tmp1 = sexp_make_flonum(ctx, sexp_ratio_to_double(ctx, b));
     /* ... FALLTHROUGH ... */
@@ -1492,12 +1494,12 @@ sexp sexp_sub (sexp ctx, sexp a, sexp b) {
   case SEXP_NUM_FLO_CPX:
   case SEXP_NUM_FIX_CPX:
   case SEXP_NUM_BIG_CPX:
+#if SEXP_USE_RATIOS
+  real_minus_complex:
+#endif
     a = tmp1 = sexp_make_complex(ctx, a, SEXP_ZERO);
     /* ... FALLTHROUGH ... */
   case SEXP_NUM_CPX_CPX:
-#if SEXP_USE_RATIOS
-  complex_sub:
-#endif
     r = sexp_complex_sub(ctx, a, b);
     if (negatep) {
       if (sexp_complexp(r)) {
